@@ -1,2 +1,47 @@
-(* C20 -- theorem statements are being added; see DESIGN.md. *)
-From HS Require Import Lib.Base.
+(* C20 -- terminated bodies stay terminated. *)
+From HS Require Import Lib.Base Model.Body Proofs.BodyP Proofs.BodyRun.
+
+(* Once a body (Once, ExactLen, Multipart) has reported its end or an error, no number of
+   further polls yields another byte -- provided the entity's own streams stay finished once
+   they have failed (`bfused`). That no such poll panics is c20_no_panic. *)
+Theorem c20_no_more_data : forall n1 n2 streams b rs1 r bm rs2 bf,
+  BInv b -> bfused b ->
+  run n1 streams b = Ok (rs1 ++ [r], bm) -> is_terminal r = true ->
+  run n2 streams bm = Ok (rs2, bf) ->
+  Forall (fun r => data_len r = 0) rs2.
+Proof. exact terminated_stays_terminated. Qed.
+
+Theorem c20_no_panic : forall n streams b, BInv b -> exists rs bf, run n streams b = Ok (rs, bf) /\ BInv bf.
+Proof. exact run_total. Qed.
+
+(* A multipart body is fused after any terminal event (with fix F8 this includes the stream of
+   the failed part): every further poll is a clean None and the state no longer changes. *)
+Theorem c20_multipart_fused : forall streams m m' r, MInv m -> mp_poll MP_FUEL streams m = Ok (m', r) ->
+  is_terminal r = true -> mp_poll MP_FUEL streams m' = Ok (m', PEnd).
+Proof.
+  intros streams m m' r HI HH Ht. destruct (mp_terminal_fuses streams m m' r HI HH Ht) as (H1 & H2 & H3).
+  now apply mp_done_stays.
+Qed.
+
+(* The pinned tree violated this: after an entity error inside a part, the next poll polled
+   the failed part again and the one after indexed past the part list. *)
+Example c20_legacy_refuted :
+  let m := {| m_cur := None; m_state := 0; m_ph := [[1]; [2]]; m_ranges := [(0, 1); (5, 6)]; m_rem := 13; m_calls := [] |} in
+  let streams := [[EvErr 7]] in
+  match mp_poll_legacy MP_FUEL streams m with
+  | Ok (m1, _) =>
+      match mp_poll_legacy MP_FUEL streams m1 with
+      | Ok (m2, r2) =>
+          match mp_poll_legacy MP_FUEL streams m2 with
+          | Ok (m3, r3) => (r2, r3, mp_poll_legacy MP_FUEL streams m3)
+          | Panic t => (r2, PEnd, Panic t)
+          end
+      | Panic t => (PEnd, PEnd, Panic t)
+      end
+  | Panic t => (PEnd, PEnd, Panic t)
+  end = (PErr (ErrEntity 7), PErr (ErrShort 1), Panic P_INDEX).
+Proof. vm_compute. reflexivity. Qed.
+
+Print Assumptions c20_no_more_data.
+Print Assumptions c20_no_panic.
+Print Assumptions c20_multipart_fused.
